@@ -188,9 +188,10 @@ def getPhasesT (g : Grid) (s : Obj) : List Obj :=
 
 /-- `get_filter_function_derivative(omega, …)`: identifier / shape validation in `s`;
 `get_control_matrix(omega, cache_intermediates=True)`; indexing `[n_idx]`, the reads of
-`_intermediates` and the gradient routines raise in the state the getter left -/
+`_intermediates` raise in the state the getter left; the property reads of the diagonalisation
+(`needEigT`); the gradient routines raise in the final state -/
 def derivT (g : Grid) (s : Obj) : List Obj :=
-  s :: (getCMT g true s ++ [(getCM g true s).1])
+  s :: (getCMT g true s ++ needEigT (getCM g true s).1)
 
 /-- `calculate_decay_amplitudes(pulse, spectrum, omega, which, cache_intermediates)`:
 identifier validation in `s`; the getter; `_get_integrand` (`parse_spectrum`) / `integrate` raise
@@ -201,6 +202,12 @@ def decayAmpsT (g : Grid) (correlations ci : Bool) (s : Obj) : List Obj :=
   else if s.ffGen.isSome then
     s :: (getFFT g .generalized false false s ++ [(getFF g .generalized false false s).1])
   else s :: (getCMT g ci s ++ [(getCM g ci s).1])
+
+/-- `infidelity(…, which='correlations')` after the frequency check: traceless basis — the
+pulse-correlation filter-function getter, then the subtraction of the identity component
+(`CalculationError` in the state the getter left); otherwise only reads. -/
+def infidelityCorrT (tl : Bool) (s : Obj) : List Obj :=
+  if tl then s :: (getPcFFT .fidelity s ++ [(getPcFF .fidelity s).1]) else [s]
 
 /-- `trace s op`: the cached state at every point where the Python method modelled by `op` can
 raise, in program order; the head is the entry state, the last element the state after normal
@@ -225,14 +232,14 @@ def trace (s : Obj) : Op → List Obj
   | .eigAccess => needEigT s
   | .totPropAccess => needTotPropT s
   | .cleanup m => [s, cleanup m s]                  -- invalid `method` raises in `s`
-  | .infidelity g tl corr =>
+  | .infidelity g tl corr _ =>
     -- identifier validation in `s`; the getters; `_get_integrand` / `integrate` after them
     if corr then
       match s.omega with
       | some h =>
-        if h == g then s :: (getPcFFT .fidelity s ++ [(getPcFF .fidelity s).1])
+        if h == g then infidelityCorrT tl s
         else [s]                                    -- `ValueError`: omega differs from the cached one
-      | none => s :: (getPcFFT .fidelity s ++ [(getPcFF .fidelity s).1])
+      | none => infidelityCorrT tl s
     else if tl then
       let s1 := (getFF g .fidelity false false s).1
       s :: (getFFT g .fidelity false false s ++ getCMT g false s1 ++ [(getCM g false s1).1])
